@@ -165,6 +165,48 @@ fn record(rep: &mut Report, cfg: &Cfg, program: &str, salt: &str, case: Value, b
 ///   is counted under `excluded_known`, the first one is recorded (flagged `known`) and the
 ///   search goes on, so that a different violation is still found.
 /// * In replay mode only the saved case with a matching program / salt is evaluated.
+thread_local! {
+    /// location and message of the last panic on this thread (filled by the panic hook)
+    static LAST_PANIC: RefCell<Option<(String, String)>> = const { RefCell::new(None) };
+}
+
+fn install_panic_hook() {
+    std::panic::set_hook(Box::new(|info| {
+        let loc = info.location().map(|l| format!("{}:{}", l.file(), l.line())).unwrap_or_default();
+        let msg = info
+            .payload()
+            .downcast_ref::<String>()
+            .cloned()
+            .or_else(|| info.payload().downcast_ref::<&str>().map(|s| s.to_string()))
+            .unwrap_or_else(|| "<panic>".into());
+        LAST_PANIC.with(|c| *c.borrow_mut() = Some((loc, msg)));
+    }));
+}
+
+/// Evaluate one case; a panic raised outside the harness' own sources (i.e. in generated code,
+/// in the sylvia runtime or below it) is a violation of "handled or rejected cleanly", a panic
+/// inside svrt / svmodel is re-raised and ends as a harness error (exit 2).
+fn guarded<T>(f: &impl Fn(&T, &Tally) -> Result<(), Bad>, case: &T, tally: &Tally) -> Result<(), Bad> {
+    LAST_PANIC.with(|c| *c.borrow_mut() = None);
+    match std::panic::catch_unwind(std::panic::AssertUnwindSafe(|| f(case, tally))) {
+        Ok(r) => r,
+        Err(payload) => {
+            let (loc, msg) = LAST_PANIC.with(|c| c.borrow().clone()).unwrap_or_default();
+            if loc.is_empty() || loc.contains("engine/svrt/") || loc.contains("engine/svmodel/") {
+                std::panic::resume_unwind(payload);
+            }
+            let class = if loc.contains("/repo/") {
+                "sylvia"
+            } else if loc.contains("/.cargo/") || loc.contains("/rustc/") {
+                "below-sylvia"
+            } else {
+                "generated-code"
+            };
+            Err(viol(format!("panic:{class}"), "the code under test panicked instead of returning a result", json!({"location": loc, "message": msg})))
+        }
+    }
+}
+
 pub fn run_cases<T: Case>(
     cfg: &Cfg,
     program: &str,
@@ -185,7 +227,7 @@ pub fn run_cases<T: Case>(
         let frozen = std::cell::Cell::new(true);
         let tally = Tally { rep: &cell, frozen: &frozen };
         rep.evaluations += 1;
-        return match f(&case, &tally) {
+        return match guarded(&f, &case, &tally) {
             Ok(()) => true,
             Err(bad) => {
                 record(rep, cfg, program, salt, case.to_json(), bad);
@@ -214,7 +256,7 @@ pub fn run_cases<T: Case>(
         if !frozen.get() {
             evals.set(evals.get() + 1);
         }
-        match f(&case, &tally) {
+        match guarded(&f, &case, &tally) {
             Ok(()) => Ok(()),
             Err(Bad::Violation { key, what, detail }) if !frozen.get() && cfg.known.iter().any(|k| *k == key) => {
                 tally.class("excluded_known");
@@ -244,7 +286,7 @@ pub fn run_cases<T: Case>(
             let cell2 = RefCell::new(Report::default());
             let frozen2 = std::cell::Cell::new(true);
             let tally = Tally { rep: &cell2, frozen: &frozen2 };
-            let bad = match f(&shrunk, &tally) {
+            let bad = match guarded(&f, &shrunk, &tally) {
                 Err(b) => b,
                 Ok(()) => last_bad.borrow().clone().unwrap_or(Bad::Harness("HARNESS: shrunk case passes".into())),
             };
@@ -352,7 +394,7 @@ pub fn parse_args() -> Cfg {
 
 /// Entry point of every corpus binary.
 pub fn run_main(programs: Vec<fn() -> Prog>) {
-    std::panic::set_hook(Box::new(|_| {}));
+    install_panic_hook();
     let cfg = parse_args();
     let f = lookup(&cfg.prop).unwrap_or_else(|| {
         eprintln!("unknown property {}", cfg.prop);
